@@ -2,7 +2,9 @@
 
 Domain   generated configurations of a parser with scalar, dict, dataclass-group, Any and a registered-type argument, loaded through a
          main config that pulls the group / dict from 0-2 separate sub-files (so __path__ metas exist) x {single file, multi file} x
-         overwrite on/off x pre-existing target and sub-files with arbitrary content x **a fault injected at each step of the save**
+         overwrite on/off x pre-existing target and sub-files with arbitrary content x the target named eight ways (absolute, relative,
+         with '..', below ~, file:// URL, pathlib, jsonargparse Path) x sub-files referenced by bare name / with a directory / absolutely
+         x configuration modified between load and save x **a fault injected at each step of the save**
          (enumerated per scenario): validation failure at each key, serialisation failure at each serialisable position (an
          unserialisable object under Any; a registered type whose serializer raises on its n-th call), and - through a harness-owned
          wrapper around builtins.open that is active only below the scratch directory - failure of each open-for-write.
@@ -123,7 +125,34 @@ def scenario():
         "pre_sub": st.one_of(st.none(), st.sampled_from(["", "previous sub file\n"])),
         "pre_other": st.booleans(),
         "pf": st.booleans(), "pre_pf": st.one_of(st.none(), st.just("older vocab\n")),
+        # how the caller spells the target (all name the same file), how the main config refers to its sub-files, and whether the
+        # configuration is modified between load and save (so that a saved file that still points at the *input* files is seen)
+        "target_spelling": st.sampled_from(["abs", "abs", "rel", "dotdot", "tilde", "file-url", "pathlib", "jpath"]),
+        "sub_ref": st.sampled_from(["bare", "bare", "dir", "abs"]), "modify": st.booleans(),
     })
+
+
+def spell(target, how, src, out):
+    """the same target file named the way a caller might: relative to the working directory, with a redundant '..', below ~ (HOME is
+    pointed at the target directory for the duration of the save), as a file:// URL, as pathlib / jsonargparse Path objects"""
+    import pathlib
+
+    base = os.path.basename(target)
+    if how == "rel":
+        return os.path.relpath(target, src)
+    if how == "dotdot":
+        return os.path.join(out, "elsewhere", "..", base)
+    if how == "tilde":
+        return "~/" + base
+    if how == "file-url":
+        return "file://" + target
+    if how == "pathlib":
+        return pathlib.Path(target)
+    if how == "jpath":
+        from jsonargparse import Path
+
+        return Path(target, mode="fc")
+    return target
 
 
 def snapshot(d):
@@ -165,26 +194,38 @@ def load_cfg(sc, src):
     if sc["t"]:
         main["t"] = "boom:top"
     ext = sc["sub_ext"]
+    ref = sc.get("sub_ref", "bare")
+    sub_dir = src if ref == "bare" else os.path.join(src, "parts")
+    os.makedirs(sub_dir, exist_ok=True)
+
+    def refer(name):
+        return {"bare": name, "dir": os.path.join("parts", name), "abs": os.path.join(sub_dir, name)}[ref]
+
     if sc["d_from_file"]:
-        with open(os.path.join(src, "dsub" + ext), "w") as f:
+        with open(os.path.join(sub_dir, "dsub" + ext), "w") as f:
             json.dump(sc["d"], f)
-        main["d"] = "dsub" + ext
+        main["d"] = refer("dsub" + ext)
     else:
         main["d"] = sc["d"]
     if sc["g_from_file"]:
-        with open(os.path.join(src, "gsub" + ext), "w") as f:
+        with open(os.path.join(sub_dir, "gsub" + ext), "w") as f:
             json.dump(g, f)
-        main["g"] = "gsub" + ext
+        main["g"] = refer("gsub" + ext)
     else:
         main["g"] = g
     if sc.get("pf"):
-        with open(os.path.join(src, "vocab.txt"), "w") as f:
+        with open(os.path.join(sub_dir, "vocab.txt"), "w") as f:
             f.write("w1\nw2\n")
-        main["pf"] = "vocab.txt"
+        main["pf"] = refer("vocab.txt")
     with open(os.path.join(src, "main.yaml"), "w") as f:
         json.dump(main, f)
     p = build()
-    return p, p.parse_args(["--cfg", os.path.join(src, "main.yaml")])
+    cfg = p.parse_args(["--cfg", os.path.join(src, "main.yaml")])
+    if sc.get("modify"):
+        cfg["a"] = cfg["a"] + 10
+        cfg["g"]["x"] = cfg["g"]["x"] + 10
+        cfg["d"]["zz"] = 5
+    return p, cfg
 
 
 def fault_points(sc, cfg):
@@ -254,9 +295,13 @@ def run_case(ctx, sc):
             wrapper = OpenFault(out, arg if kind == "open-for-write-fails" else None)
             builtins.open = wrapper
             os.chdir(src)  # relative metas were loaded from here; save must not depend on it, but stay neutral
+            old_home = os.environ.get("HOME")
+            os.environ["HOME"] = out
             try:
                 try:
-                    p.save(cfg, target, format=sc["format"], multifile=sc["multifile"], overwrite=sc["overwrite"])
+                    spelled = spell(target, sc.get("target_spelling", "abs"), src, out)
+                    ctx.cls("target-spelling:" + sc.get("target_spelling", "abs"))
+                    p.save(cfg, spelled, format=sc["format"], multifile=sc["multifile"], overwrite=sc["overwrite"])
                     outcome = "saved"
                 except Exception as ex:  # noqa
                     outcome, err = "failed:" + type(ex).__name__, fmt_exc(ex)
@@ -264,6 +309,10 @@ def run_case(ctx, sc):
                 builtins.open = wrapper.real
                 SER["fail_at"] = None
                 os.chdir(old_cwd)
+                if old_home is None:
+                    os.environ.pop("HOME", None)
+                else:
+                    os.environ["HOME"] = old_home
             after = snapshot(out)
             label = kind if kind != "invalid" else "invalid"
             ctx.cls(f"fault:{label}:{outcome.split(':')[0]}")
@@ -274,7 +323,7 @@ def run_case(ctx, sc):
             changed = sorted(k for k in set(before) | set(after) if before.get(k) != after.get(k))
             pre_changed = [k for k in changed if k in before]
             where = f"{'multi' if sc['multifile'] else 'single'}file"
-            det = {"fault": [kind, arg], "outcome": outcome, "changed": changed, "overwrite": sc["overwrite"]}
+            det = {"fault": [kind, arg], "outcome": outcome, "changed": changed, "overwrite": sc["overwrite"], "target_spelling": sc.get("target_spelling", "abs"), "sub_ref": sc.get("sub_ref", "bare")}
             # 1. never modify an existing file unless overwrite is requested
             if not sc["overwrite"] and pre_changed:
                 ctx.finding(f"C18/existing-file-modified-without-overwrite/{where}/{kind}", det)
